@@ -272,7 +272,9 @@ type world struct {
 	clA     *vkit.ClientSpec
 	clB     *vkit.ClientSpec
 	foreign *vkit.Agent // lazily built second provider (other issuer, other keys)
-	fClient *vkit.ClientSpec
+	// actorUnknown: the actor token is grey, so the actor the issued token must carry is not decidable
+	actorUnknown bool
+	fClient      *vkit.ClientSpec
 }
 
 func algOfKey(name string) string {
@@ -687,7 +689,16 @@ func run(c Case) (res *vkit.Result) {
 			if c.Actor != nil {
 				expActor = act.Subject
 			}
-			outcome = "success:" + w.judgeSuccess(res, resp, effective, expSub, expActor, keepScopes(c.Scopes, c.Policy.DropScopes), before)
+			switch {
+			case sv == 0:
+				// grey subject token (e.g. a string that only a liveness-checking storage could have refused): whom the
+				// issued token stands for is not decidable; only the shape of the answer is looked at
+				outcome = "success:" + shapeOnly(res, resp, effective)
+				res.Label("success-shape-only")
+			default:
+				w.actorUnknown = av == 0
+				outcome = "success:" + w.judgeSuccess(res, resp, effective, expSub, expActor, keepScopes(c.Scopes, c.Policy.DropScopes), before)
+			}
 		}
 	default:
 		// a refusal must be an OAuth error document without token material
@@ -827,6 +838,22 @@ func libFrames(stack string, n int) string {
 	return strings.Join(out, " <- ")
 }
 
+// shapeOnly: the 2xx answer declares the decided type and carries a non-empty token in the member of that type.
+func shapeOnly(res *vkit.Result, resp *vkit.Resp, effective string) string {
+	itt := resp.Str("issued_token_type")
+	if itt != typeURN(effective) {
+		res.Fail("C15:issued-type-differs-from-decided-type", "issued_token_type=%q but the request / storage policy decided %q; body %s", itt, typeURN(effective), clip(resp.Body))
+	}
+	member := "access_token"
+	if effective == "refresh" {
+		member = "refresh_token"
+	}
+	if resp.Str(member) == "" {
+		res.Fail("C15:success-with-empty-token:"+effective, "issued_token_type is %s but %s is empty: %s", itt, member, clip(resp.Body))
+	}
+	return effective + "(shape)"
+}
+
 // judgeSuccess checks a 2xx answer of an exchange that was allowed to succeed: issued_token_type names what the
 // response contains, and that token is live at the provider with the decided subject, scopes and actor.
 func (w *world) judgeSuccess(res *vkit.Result, resp *vkit.Resp, effective, expSub, expActor string, expScopes []string, before map[string]bool) string {
@@ -868,7 +895,7 @@ func (w *world) judgeSuccess(res *vkit.Result, resp *vkit.Resp, effective, expSu
 			if s := claimStr(v.Claims, "sub"); s != expSub {
 				res.Fail("C15:issued-token-wrong-subject:"+what, "the %s (JWT) has sub=%q, the policy decided %q", what, s, expSub)
 			}
-			if wantActor {
+			if wantActor && !w.actorUnknown {
 				got, has := actSub(v.Claims)
 				if expActor == "" && has || expActor != "" && got != expActor {
 					res.Fail("C15:issued-token-wrong-actor:"+what, "the %s (JWT) has act=%q (present=%v), the policy decided actor %q", what, got, has, expActor)
@@ -913,7 +940,7 @@ func (w *world) judgeSuccess(res *vkit.Result, resp *vkit.Resp, effective, expSu
 		if !sameSet(snap.Scopes, expScopes) {
 			res.Fail("C15:issued-token-wrong-scopes:"+what, "the %s was created with scopes %q, the policy decided %q", what, snap.Scopes, expScopes)
 		}
-		if wantActor && snap.Actor != expActor {
+		if wantActor && !w.actorUnknown && snap.Actor != expActor {
 			res.Fail("C15:issued-token-wrong-actor:"+what, "the %s was created with actor %q, the policy decided %q", what, snap.Actor, expActor)
 		}
 		if snap.ClientID != w.clA.ID {
@@ -994,7 +1021,7 @@ func (w *world) judgeSuccess(res *vkit.Result, resp *vkit.Resp, effective, expSu
 			res.Fail("C15:issued-token-wrong-subject:id token", "the ID token has sub=%q, the policy decided %q", s, expSub)
 		}
 		got, has := actSub(v.Claims)
-		if expActor == "" && has || expActor != "" && got != expActor {
+		if !w.actorUnknown && (expActor == "" && has || expActor != "" && got != expActor) {
 			res.Fail("C15:issued-token-wrong-actor:id token", "the ID token has act=%q (present=%v), the policy decided actor %q", got, has, expActor)
 		}
 		if isUser {
